@@ -299,6 +299,13 @@ impl StaticResourceController {
         let os_specific_path = &components.path.replace(SYMBOL.slash, os_specific_separator.as_str());
 
         let boxed_static_filepath = FileExt::get_static_filepath(&os_specific_path);
+        if boxed_static_filepath.is_err() {
+            let error = Error {
+                status_code_reason_phrase: STATUS_CODE_REASON_PHRASE.n500_internal_server_error,
+                message: boxed_static_filepath.err().unwrap()
+            };
+            return Err(error)
+        }
 
         let static_filepath = boxed_static_filepath.unwrap();
 
